@@ -227,7 +227,67 @@ def _work(arg):
     return res
 
 
+def stateless_domain(ctx):
+    """The converter of a task field is created once per task CLASS and shared by every instance:
+    what it accepts and stores must not depend on what it was asked before.  For every depth <= 1 type T:
+    record TypeParser(T)(v) for the value pool on a fresh parser; then use ONE parser for a history of
+    static checks check_type(S) over all depth <= 1 types S (accepted or rejected) and of coercions of
+    the pool; replaying the pool afterwards must give exactly the recorded outcomes."""
+    import pickle
+
+    from pydra.utils.typing import TypeParser
+
+    root = tempfile.mkdtemp(prefix="vf_c20s_")
+    try:
+        env = R.Env(root)
+        types = [t for t in R.grammar(1)]
+        pool = R.general_pool(env)[: ctx.pick(40, 120)]
+        dom = ctx.domain(
+            "converter-is-stateless",
+            bound=f"{len(types)} depth <= 1 types x history [check_type(S) for all {len(types)} depth <= 1 types S; coerce {len(pool)} pool values] on one shared TypeParser, compared with a fresh parser per value",
+            rule="one case per type; non-trivial = at least one static check was rejected during the history",
+            exhaustive=True,
+        )
+
+        def outcome(parser, v):
+            try:
+                c = parser(v)
+                return ("ok", type(c).__name__, norm(repr(c), env))
+            except Exception as e:  # noqa
+                return ("rej", type(e).__name__, "")
+
+        for T in types:
+            fresh = [outcome(TypeParser(T), v) for v in pool]
+            shared = TypeParser(T)
+            rejected = 0
+            for S in types:
+                try:
+                    shared.check_type(S)
+                except Exception:  # noqa
+                    rejected += 1
+            for v in pool:
+                outcome(shared, v)
+            after = [outcome(shared, v) for v in pool]
+            dom.case(R.tname(T), nontrivial=rejected > 0, sample={"type": R.tname(T), "rejected_static_checks": rejected, "pool": len(pool)})
+            bad = [i for i, (a, b) in enumerate(zip(fresh, after)) if a != b]
+            if bad:
+                i = bad[0]
+                ctx.fail(
+                    None,
+                    f"TypeParser({R.tname(T)}) answers differently after a history of static checks: value {norm(repr(pool[i]), env)} fresh={fresh[i]} after-history={after[i]} ({len(bad)} of {len(pool)} values differ)",
+                    {"kind": "stateful-converter", "type": R.tname(T), "value": norm(repr(pool[i]), env), "fresh": fresh[i], "after": after[i]},
+                    domain=dom,
+                )
+    finally:
+        shutil.rmtree(root, ignore_errors=True)
+
+
 def run(ctx):
+    stateless_domain(ctx)
+    _run_main(ctx)
+
+
+def _run_main(ctx):
     from vf.core import json_safe
 
     ctx.level = "other"
@@ -394,6 +454,17 @@ def find_value(T, key, env):
 
 
 def replay(rec):
+    if rec.get("case", {}).get("kind") == "stateful-converter":
+        from vf.core import Ctx
+
+        c = Ctx("C20")
+        stateless_domain(c)
+        print(f"replay C20 stateless domain: {len(c.violations)} failing type(s)")
+        return 1 if c.violations else 0
+    return _replay_main(rec)
+
+
+def _replay_main(rec):
     from pydra.utils.typing import TypeParser
 
     case = rec["case"]
